@@ -424,6 +424,41 @@ def rule_index_maps(rep, repo):
                           inv.loc())
 
 
+def rule_cube_exits(rep, repo):
+    """`UniformGrid.from_cube` has two exits (grid only / grid and data); both must construct the grid
+    from the same values -- in particular the angstrom -> bohr conversion of origin and axes must have
+    happened on both.  Value graphs at each return (in-place `*=` is a rebinding in the graph)."""
+    from gridlint import e5
+    f = repo.method("UniformGrid", "from_cube")
+    vg = e5.VG(repo, "UniformGrid", f.node, inline=False)
+    vg.run(strip_docstring(f.node.body))
+    if vg.ret is None:
+        raise AnalysisError("unrecognised idiom: from_cube has no return value graph")
+    ctor = []
+
+    def walk(t):
+        if isinstance(t, tuple):
+            if len(t) == 4 and t[0] == "call" and e5.show(t[1]) in ("cls", "UniformGrid"):
+                if t not in ctor:
+                    ctor.append(t)
+                return
+            for x in t:
+                walk(x)
+    walk(vg.ret)
+    cons = "cubic.UniformGrid.from_cube"
+    if not ctor:
+        raise AnalysisError("unrecognised idiom: from_cube does not return cls(...)")
+    if len(ctor) == 1:
+        rep.ok("cube-reader-exits-agree", "UniformGrid.from_cube", f.loc(),
+               "every exit returns the same constructed grid: " + e5.show(ctor[0], 100))
+        return
+    d = e5.diff(ctor[0], ctor[1])
+    rep.violation("cube-reader-exits-agree", cons, "grid",
+                  f"the grid returned with return_data=False is built from {e5.show(d[1], 110)} where the one returned "
+                  f"with return_data=True uses {e5.show(d[2], 110)}: the same cube file gives two different grids (e.g. a "
+                  f"unit conversion applied on one exit only)", f.loc(), [f"first differing node at {d[0]}"])
+
+
 def _branch_for_dim(fn, nd):
     body = strip_docstring(fn.body)
     for i, s in enumerate(body):
@@ -491,6 +526,7 @@ def run(tier="quick", root="/repo", evidence_dir=None, quiet=False):
     rep.floor("weight schemes", len(keys), 5)
     rep.attempt(rule_layout, rep, repo)
     rep.attempt(rule_index_maps, rep, repo)
+    rep.attempt(rule_cube_exits, rep, repo)
     rep.extra.update({"functions_in_scope": len(scope), "weight_schemes": keys, "source_digest": repo.digest(["cubic"])})
     return rep.finish(evidence_dir=evidence_dir, quiet=quiet)
 
